@@ -92,6 +92,38 @@ def discharge_one(an, ob):
     if st is None or st.dead:
         return Outcome(ob, True, "UNREACH", "block is unreachable under the abstract state")
     t = ob.term
+    if ob.kind == "OVF" and ob.sub.startswith("int-"):
+        meth = ob.sub[4:]
+        st2 = st.copy()
+        args = [an.eval_op(st2, a, "q%d" % i) for i, a in enumerate(t["args"])]
+        ity = re.sub(r"^&('\w+ )?", "", t["arg_tys"][0]) if t.get("arg_tys") else None
+        r = ty_range(ity) if ity else None
+        ia = st2.itv(args[0]) if args else (-INF, INF)
+        ib = st2.itv(args[1]) if len(args) > 1 else None
+        if r is None:
+            return Outcome(ob, False, None, "integer method on an unknown type")
+        if meth == "abs":
+            if ia[0] > r[0]:
+                return Outcome(ob, True, "INT", "operand in [%s,%s] excludes %s::MIN" % (ia[0], ia[1], ity))
+            return Outcome(ob, False, None, "operand may be %s::MIN: abs() overflows" % ity)
+        if meth in ("ilog2", "ilog10", "ilog", "isqrt"):
+            ok = ia[0] > 0 if meth != "isqrt" else ia[0] >= 0
+            return Outcome(ob, ok, "INT" if ok else None, "operand in [%s,%s]" % ia)
+        if meth in ("div_euclid", "rem_euclid", "next_multiple_of", "div_ceil"):
+            ok = ib is not None and (ib[0] > 0 or (ib[1] < 0 and (r[0] == 0 or ia[0] > r[0] or ib[1] < -1)))
+            if ok and meth == "next_multiple_of":
+                ok = ia[1] + ib[1] <= r[1]
+            return Outcome(ob, ok, "INT" if ok else None, "divisor in %s, operand in [%s,%s]" % (ib, ia[0], ia[1]))
+        if meth == "next_power_of_two":
+            ok = ia[1] <= (r[1] + 1) // 2
+            return Outcome(ob, ok, "INT" if ok else None, "operand in [%s,%s]" % ia)
+        if meth == "pow":
+            ok = False
+            if ib is not None and ib[1] != INF and ia[0] != -INF and ia[1] != INF and ib[1] <= 128:
+                m = max(abs(ia[0]), abs(ia[1]))
+                ok = m ** ib[1] <= r[1]
+            return Outcome(ob, ok, "INT" if ok else None, "base in [%s,%s], exponent in %s" % (ia[0], ia[1], ib))
+        return Outcome(ob, False, None, "integer method %s not understood" % meth)
     if ob.kind == "OVF" and ob.sub.endswith("-call"):
         from .summaries import op_trait_operands
         st2 = st.copy()
